@@ -460,7 +460,7 @@ func runC18(a Args) tr.Summary {
 	for i, algo := range algos {
 		per := 20000
 		if algo == "random" {
-			per = 150000
+			per = 400000
 		}
 		if a.Tier == "thorough" {
 			per *= 5
